@@ -437,7 +437,12 @@ func (root *Root) replaceArgVars(vars map[string]interface{}, v interface{}, at 
 	val = v
 	switch tv := val.(type) {
 	case Var:
-		val = vars[string(tv)]
+		var has bool
+		if val, has = vars[string(tv)]; !has {
+			// Every variable of the operation has an entry, with the default
+			// or null when no value was given.
+			ea = append(ea, resWarnp(nil, "variable $%s is not defined", tv))
+		}
 		if at != nil {
 			if ic, _ := at.(InCoercer); ic != nil { // validated in SDL validation
 				if val, err = ic.CoerceIn(val); err != nil {
